@@ -253,6 +253,15 @@ func c05value(r *Rng, depth int, top bool) *D {
 	case c < 52:
 		return &D{K: "RegStruct", N: randInt(r), Sub: []*D{sub()}}
 	case c < 56 && top:
+		// a pointer to a plain struct, to a struct of a registered type, to a SafeValue struct, to a slice
+		switch r.Intn(4) {
+		case 0:
+			return dSub("ptr", &D{K: "RegStruct", N: randInt(r), Sub: []*D{sub()}})
+		case 1:
+			return dSub("ptr", dSub("SVStruct", sub(), sub()))
+		case 2:
+			return dSub("ptr", dSub("slice", sub(), sub()))
+		}
 		return dSub("ptr", dSub("S2", sub(), sub()))
 	case c < 58 && top:
 		return dSub("RValue", sub())
@@ -525,6 +534,7 @@ func c05product() []*Call {
 		func(l *D) *D { return &D{K: "map", Sub: []*D{dS("string", "k"), l, dS("string", "m\n"), dN("int", 2)}} },
 		func(l *D) *D { return dSub("S2", l, dS("string", "z")) },
 		func(l *D) *D { return dSub("ptr", dSub("S2", dS("string", "z"), l)) },
+		func(l *D) *D { return dSub("ptr", &D{K: "RegStruct", N: 5, Sub: []*D{l}}) },
 		func(l *D) *D { return dSub("RValue", l) },
 		func(l *D) *D { return dSub("RVIdx", l) },
 		func(l *D) *D {
